@@ -1052,4 +1052,90 @@ Proof.
   - apply Href. rewrite Hst. apply allowed_idle_pausing.
 Qed.
 
+
+(* resume() *)
+Lemma step_resume (s : st) os :
+  Inv s os -> state s = Paused ->
+  Inv (fst (step s (EvMain AResume))) (os ++ snd (step s (EvMain AResume))).
+Proof.
+  intros HI Hpau. pose proof (Inv_nobintr s os HI) as Hnb.
+  inv_cases HI; try (rewrite Hst in Hpau; discriminate Hpau).
+  pose proof HLk as (L1 & L2 & L3 & L4 & L5 & L6 & L7 & L8 & L9 & L10).
+  destruct (resume_step P presume plan_of D dev Hdev s (p_c q ++ p_infl q) Hst) as (s5 & o5 & E & S5 & Q5);
+    [apply Hnb; rewrite Hst; discriminate | exact L1 |].
+  rewrite E. cbn [fst snd app].
+  apply Inv_neutral; [apply devonly_neutral; exact Q5|].
+  pose proof (pos_facts q HP) as (W0 & Wc & We & Hrr & Hn & Hds & Hfresh & _).
+  pose proof (dsame_nsame _ _ S5) as N5. destruct S5 as ((K1 & K2 & K3 & K4 & K5 & K6 & K7 & K8 & K9 & K10 & K11 & K12 & K13) & C1 & C2 & C3).
+  destruct Hrs as (vs & Hrs & Hlen).
+  set (q' := mkpos (p_pre q) [] [] ((p_c q ++ p_infl q) :: p_fl q) (p_u q) (p_p q) (p_started q)
+                   (p_a0 q) (p_a0 q) (p_aend q) (p_d0 q) []).
+  assert (HBR : BR (bundlers s5) (p_a0 q) (p_a0 q) (p_aend q)).
+  { rewrite C2. destruct (Nat.eqb (List.length (p_c q ++ p_infl q)) 0) eqn:El; simp_st.
+    - apply Nat.eqb_eq in El. destruct (p_c q) eqn:Ec; [|discriminate El].
+      destruct HP as (_ & _ & _ & P4 & _). rewrite Ec in P4. cbn in P4. injection P4 as Ea _. rewrite <- Ea in L4. exact L4.
+    - eapply rewind_BR; eassumption. }
+  destruct N5 as (A1 & A2 & A3 & A5 & A6 & A7 & A8 & A9 & A10).
+  destruct (Nat.eqb (List.length (p_c q ++ p_infl q)) 0) eqn:El; simp_st.
+  all: eapply I_pd with (q := q'); simp_st; try congruence;
+    [ split; [apply PosOK_rewind; exact HP|]; split; [|eapply Docs_rewind with (q := q); try reflexivity; exact HD];
+      unfold Link, q', mkpos; cbn [p_c p_infl p_fl p_p p_started p_acur p_a0 p_aend map app]; simp_st;
+      repeat split; congruence
+    | intros _; reflexivity
+    | exists (VNone :: vs); cbn [map List.length p_fl q' mkpos]; split; [simp_st; congruence | lia] ].
+Qed.
+
+(* a status object completes successfully / the caller returns *)
+Lemma step_status (s : st) os sid :
+  Inv s os -> Inv (fst (step s (EvStatus sid true))) (os ++ snd (step s (EvStatus sid true))).
+Proof.
+  intros HI. cbn [RE.step negb andb fst snd]. rewrite app_nil_r. eapply Inv_csame; [|exact HI]. csame_tac.
+Qed.
+
+Lemma step_maindone (s : st) os a :
+  Inv s os -> (match a with ACall _ | AResume => True | _ => False end) ->
+  Inv (fst (step s (EvMainDone a))) (os ++ snd (step s (EvMainDone a))).
+Proof.
+  intros HI Ha. cbn [RE.step fst snd]. rewrite (Inv_main_err s os HI), (Inv_no_task_exn s os HI).
+  apply Inv_neutral.
+  - destruct a; try contradiction; destruct (interrupted s); apply neutral_intro; reflexivity.
+  - eapply Inv_csame; [|exact HI]. unfold csame, lsame. simp_st. rewrite (Inv_main_err s os HI). repeat split; reflexivity.
+Qed.
+
+(* ------------------------------------------------------------------ every event of a well-formed schedule *)
+Theorem step_inv (s : st) os e :
+  Inv s os -> ev_ok P D s e = true -> reads_ok rdm (last_msg None os) (snd (step s e)) = true ->
+  Inv (fst (step s e)) (os ++ snd (step s e)).
+Proof.
+  intros HI Hok Hreads. destruct e as [a | a | | | d | | | | | | sid ok | |]; cbn [ev_ok] in Hok; try discriminate Hok.
+  - (* resume() *)
+    destruct a; try discriminate Hok. apply step_resume; [exact HI | apply rstate_eqb_eq; exact Hok].
+  - (* the caller returns *)
+    apply step_maindone; [exact HI | destruct a; try discriminate Hok; exact I].
+  - (* the run permit *)
+    cbn [RE.step fst snd]. rewrite app_nil_r. apply Inv_permit; [exact HI|].
+    intros Hp. rewrite Hp in Hok. cbn in Hok. destruct (interrupted s); [discriminate Hok | reflexivity].
+  - (* the task *)
+    change (step s EvTask) with (task_step s) in *.
+    assert (G : StepOK s os (task_step s)); [|exact (G Hreads)].
+    clear Hreads. inv_cases HI.
+    + apply (step_task_ns s os q); try assumption; [split; [exact HP | split; [exact HLk | exact HD]]|].
+      intros Hp. rewrite Hp in Hok. exact Hok.
+    + apply (step_task_rs s os q); try assumption. split; [exact HP | split; [exact HLk | exact HD]].
+    + apply (step_task_rc s os q k m); try assumption. split; [exact HP | split; [exact HLk | exact HD]].
+    + apply (step_task_pause s os q); try assumption; [split; [exact HP | split; [exact HLk | exact HD]]|]. left. auto.
+    + apply (step_task_pause s os q); try assumption; [split; [exact HP | split; [exact HLk | exact HD]]|]. right. exists k, m. auto.
+    + apply (step_task_pd s os q); try assumption. split; [exact HP | split; [exact HLk | exact HD]].
+    + apply step_task_final; [unfold FinCore; auto | left; auto | exact Hpc].
+    + apply step_task_final; [unfold FinCore; auto | right; auto | exact Hpc].
+    + eapply step_task_done; eassumption.
+  - (* pause request *)
+    destruct d; [discriminate Hok|]. apply step_reqpause. exact HI.
+  - (* status *)
+    destruct ok; [|discriminate Hok]. apply step_status. exact HI.
+  - (* caching tasks done *)
+    cbn [RE.step fst snd]. rewrite app_nil_r. destruct (pc s) as [| | | | |[| | | |run d z]| |]; try exact HI.
+    apply Inv_mark_cached. exact HI.
+Qed.
+
 End D.
